@@ -84,6 +84,21 @@ func judgeObligations(m *Model, seqs map[seqKey][]*Attempt, sendResolvedOf func(
 						}
 					}
 					h := AlertHash(ls)
+					if ent == nil || !ent.Found {
+						// the entry of the last delivery may have expired (min(retention, 2×repeat_interval in force
+						// when it was written): reachable after a reload that raises repeat_interval) and been
+						// collected by a maintenance run inside the window: the bound then runs from that collection
+						if last := lastOKBefore(seqKey{gk, rt.Receiver, idx}, tau); last != nil {
+							expiry := 2 * last.Repeat
+							if ret := time.Duration(sc.Opts.Retention) * time.Second; ret < expiry {
+								expiry = ret
+							}
+							if last.Done.Add(expiry + time.Duration(sc.Opts.Maint)*time.Second).After(t1) {
+								st.KnowledgeObligations--
+								continue
+							}
+						}
+					}
 					if ent == nil || !ent.Found || !containsHash(ent.Firing, h) {
 						add(pbt.V("knowledge-missing", "alert %s was firing and unsuppressed during [%s, %s] (max(group_wait, group_interval)+%s for route %s) and %s/%d accepted deliveries, but at %s the notification log entry of group %s for that integration does not list it as firing (entry %+v)",
 							key, t1.Format(tf), tau.Format(tf), deliverySlack, rt.ID, rt.Receiver, idx, tau.Format(tf), gk, ent).With("key", key))
@@ -340,8 +355,13 @@ func judgeObligations(m *Model, seqs map[seqKey][]*Attempt, sendResolvedOf func(
 		}
 	}
 	for _, s := range m.Silences {
-		if (!s.Expire.IsZero() && s.Expire.Before(tr.End)) || s.End.Before(tr.End) {
+		if s.End.Before(tr.End) {
 			st.SuppressionEnded = true
+		}
+		for _, e := range s.eras {
+			if !e.Expire.IsZero() && e.Expire.Before(tr.End) {
+				st.SuppressionEnded = true
+			}
 		}
 	}
 	return vs
